@@ -342,7 +342,8 @@ class Gen:
         m = st0.meta
         name = m["name"] if self.rng.random() < 0.8 else flip_case(self.rng, m["name"])
         src = m["src"] if self.rng.random() < 0.6 else addr(cl.ip, cl.port + 1, cl.fam)
-        self.q(cl, name, qtype=m["qtype"], id_=self.dnsid(zero_ok=False), src=src, meta={"kind": "redeliver-held", "orig": st0})
+        qtype = m["qtype"] if self.rng.random() < 0.85 else self.rng.choice([t for t in QTYPES if t != m["qtype"]])
+        self.q(cl, name, qtype=qtype, id_=self.dnsid(zero_ok=False), src=src, meta={"kind": "redeliver-held", "orig": st0})
 
     def act_tun(self):
         r = self.rng.random()
